@@ -492,3 +492,19 @@ V('C05', 'c05v-args-any-all', [(MAT, """        result = True
         return True""")])
 V('C05', 'c05v-string-matcher-if', [(MAT, "        return isinstance(arg, wl.Arg.String) and self.wrapped.matches(arg.value)", "        if not isinstance(arg, wl.Arg.String):\n            return False\n        return self.wrapped.matches(arg.value)")])
 V('C05', 'c05v-wildcard-fullmatch', [(MAT, "        re_pattern = r'^' + re.escape(pattern).replace(r'\\*', '.*') + r'$'", "        re_pattern = re.escape(pattern).replace(r'\\*', '.*')"), (MAT, "        return len(self.regex.findall(text)) > 0", "        return self.regex.fullmatch(text) is not None")])
+
+# ---- memoisation (round f): a memoised function may only hand out immutable values ------------------
+V('C01', 'c01v-memoised-int-conversion', [(PARSE, "def argument(p: WlPatterns, value_str: str) -> wl.Arg.Base:", "import functools\n\n@functools.lru_cache(maxsize=None)\ndef _to_int(text: str) -> int:\n    return int(text)\n\ndef argument(p: WlPatterns, value_str: str) -> wl.Arg.Base:"),
+                                            (PARSE, "            return wl.Arg.Int(int(value_str))", "            return wl.Arg.Int(_to_int(value_str))")])
+M('C01', 'c01-memoised-argument', [(PARSE, "def argument(p: WlPatterns, value_str: str) -> wl.Arg.Base:", "import functools\n\n@functools.lru_cache(maxsize=None)\ndef argument(p: WlPatterns, value_str: str) -> wl.Arg.Base:")], 'C01.14')
+M('C12', 'c12-memoised-parse', [(CTL, "    def parse_and_join(self, new_unparsed: str, old: Optional[matcher.MessageMatcher]) -> matcher.MessageMatcher:\n        try:\n            parsed = matcher.parse(new_unparsed)",
+                                  "    def parse_and_join(self, new_unparsed: str, old: Optional[matcher.MessageMatcher]) -> matcher.MessageMatcher:\n        try:\n            parsed = _cached_parse(new_unparsed)"),
+                                (CTL, "class Command:\n", "import functools\n\n@functools.lru_cache(maxsize=32)\ndef _cached_parse(text: str) -> matcher.MessageMatcher:\n    return matcher.parse(text)\n\nclass Command:\n")], 'C12.7')
+V('C12', 'c12v-memoised-command-format', [(CTL, "def command_format(cmd: str) -> str:", "import functools\n\n@functools.lru_cache(maxsize=None)\ndef command_format(cmd: str) -> str:")])
+V('C14', 'c14v-memoised-letter-id', [(LIG, "def number_to_letter_id(value: int, caps: bool) -> str:", "import functools\n\n@functools.lru_cache(maxsize=None)\ndef number_to_letter_id(value: int, caps: bool) -> str:")])
+
+# ---- MatcherList.simplify must preserve the meaning of the list (decided semantically on paths) ------
+M('C12', 'c12-simplify-drops-real-exclusions', [(MAT, "        self.negative = [pattern for pattern in self.negative if not pattern.always() is False]\n        if len(self.positive) == 0:", "        self.negative = [pattern for pattern in self.negative if pattern.always() is True]\n        if len(self.positive) == 0:")], 'C12.6')
+M('C12', 'c12-simplify-star-alternative-wins-over-exclusions', [(MAT, "            if pattern.always() is True:\n                self.positive = [pattern]", "            if pattern.always() is True:\n                return pattern")], 'C12.6')
+M('C12', 'c12-simplify-single-alternative-forgets-exclusions', [(MAT, "        elif len(self.positive) == 1 and len(self.negative) == 0:\n            return self.positive[0]", "        elif len(self.positive) == 1:\n            return self.positive[0]")], 'C12.6')
+M('C12', 'c12-simplify-keeps-first-alternative-only', [(MAT, "        self.positive = [pattern for pattern in self.positive if not pattern.always() is False]\n        self.negative = [pattern for pattern in self.negative if not pattern.always() is False]\n        if len(self.positive) == 0:", "        self.positive = [pattern for pattern in self.positive if not pattern.always() is False][:1]\n        self.negative = [pattern for pattern in self.negative if not pattern.always() is False]\n        if len(self.positive) == 0:")], 'C12.6')
